@@ -111,6 +111,17 @@ var triggers = []trigger{
 		},
 	},
 	{
+		// MVP-7.x/8 with two or more cores (whole-machine face of KF-R3): a flush
+		// cancels a cache request after it has sent snoop commands to the other
+		// core holding the line; cc.flush releases the line lock at once while
+		// the commands stay in the directory: "cache line doesn't exist",
+		// "memory address should exist", "invalid state", a stale Shared copy.
+		id: "KF-W10", props: wmProps,
+		match: func(c *core.Case, f *features, class string) bool {
+			return c.Cfg.V >= mach.MVP70 && c.Cfg.Cores >= 2 && f.conflictSameLine && f.redirects >= 1
+		},
+	},
+	{
 		// MVP-7.1/8: the control unit computes a memory instruction's address at
 		// dispatch (to pin it to the core owning the line) from registers whose
 		// older writers have not executed yet: the cycle count depends on a dead
